@@ -118,28 +118,30 @@ def inGeneralClass (inputs : List String) (defs : List (String × BExp)) (rets :
 
 /-! ## The general class for cleanliness (`QV.C03.C03_general_partial`, `QV.C06.C06_general_partial`) -/
 
-/-- every left-hand side is a requested return bit -/
-def retDefs (rets : List String) : List (String × BExp) → Bool
+/-- the right-hand side of a return statement: without constants, or a bare constant (the only forms sympy leaves:
+`_symplify_exp` folds every constant inside an expression) -/
+def retExprOK (e : BExp) : Bool := !(hasConst e && !isLeaf e)
+
+/-- the return phase: every left-hand side is a requested return bit and a NEW name (not an argument, not defined
+before: a requested return name that is bound again later leaves its first qubit to `uncompute_all` after the
+ancillas were released – the compiler is wrong there, `docs/notes/C02_C03_C06.md`) -/
+def retDefs (rets : List String) (scope : List String) : List (String × BExp) → Bool
   | [] => true
-  | (r, _) :: rest => rets.contains r && retDefs rets rest
+  | (r, e) :: rest => rets.contains r && !scope.contains r && retExprOK e && retDefs rets (scope ++ [r]) rest
 
 /-- the intermediates (left-hand sides that are not requested return bits: with final uncomputation on their
-ancillas are kept for `uncompute_all`) come first, the return bits last -/
-def keptThenRet (rets : List String) : List (String × BExp) → Bool
+ancillas are kept for `uncompute_all`; they may be defined more than once, re-bind an argument, mention constants)
+come first, the return bits last -/
+def keptThenRet (rets : List String) (scope : List String) : List (String × BExp) → Bool
   | [] => true
-  | (r, e) :: rest => if rets.contains r then retDefs rets ((r, e) :: rest) else keptThenRet rets rest
-
-/-- every left-hand side is new (not an argument, not defined before – a name that is re-bound leaves its old
-qubit without an owner, see the finding in `docs/notes/C02_C03_C06.md`), every right-hand side is without
-constants (a `TRUE` qubit created inside a return statement would have to be reset by `uncompute_all`) -/
-def freshDefs (scope : List String) : List (String × BExp) → Bool
-  | [] => true
-  | (r, e) :: rest => !scope.contains r && !hasConst e && freshDefs (scope ++ [r]) rest
+  | (r, e) :: rest =>
+    if rets.contains r then retDefs rets scope ((r, e) :: rest) else keptThenRet rets (scope ++ [r]) rest
 
 /-- the class of `QV.C03.C03_general_partial`: the general class of C02 (sharing, cache hits inside and across
-statements, several return bits), every name defined once, no constants, intermediates first -/
+statements, re-binding of intermediates and arguments, several return bits) with the intermediates first and every
+requested return bit defined once, last -/
 def inGeneralClean (inputs : List String) (defs : List (String × BExp)) (rets : List String) : Bool :=
-  inGeneral inputs defs rets && freshDefs inputs defs && keptThenRet rets defs
+  inGeneral inputs defs rets && keptThenRet rets inputs defs
 
 /-- what the driver reports as `in_clean_general`: the class of `QV.C03.C03_general_partial` -/
 def inGeneralCleanClass (inputs : List String) (defs : List (String × BExp)) (rets : List String) : Bool :=
